@@ -1,16 +1,368 @@
+import os
 from verif import Q
 
 META = {
- "level_text": "Bounded symbolic model checking (CBMC) of the real inner.h primitives and src/int big-integer routines: word primitives for all 2^64 operand pairs (no bound), multiplication-free big-integer routines against an explicit __int128 reference for every announced bit length up to the stated bound, multiplication routines at 1-2 words. Partial: sizes beyond the bounds are outside the claim.",
- "level_note": "Trusted: CBMC's C front end and bit-precise semantics; loop-model memcpy/memset; bounds as listed per query in the evidence.",
- "technique": "bounded symbolic model checking (CBMC/SAT) of real C units vs reference on explicit integers",
- "assumptions": [],
- "outside_claim": ["multiplication correctness at >= 3 words", "i62", "production operand sizes"],
+ "level_text": "Bounded symbolic model checking (CBMC 6.11, SAT/SMT back ends) of the real inner.h primitives and src/int big-integer routines (i15, i31, i32). Decided without bound: the word primitives (all 2^64 operand pairs) and br_i15_ninv15. Decided for every operand of every listed announced bit length (0..120, quick tier: every residue mod 15/31 at one and two words plus all word-boundary neighbourhoods; thorough tier: every length): decode/encode, decode_mod, add/sub, rshift, bit_length, iszero, zero against an explicit __int128 integer. Multiplying routines: one-word montymul (i15) / from_monty / mulacc (i15, i31, i32) for every operand with the real multiplier; the division-estimate routines (muladd_small, to_monty, reduce, decode_reduce) and modpow/modpow_opt/moddiv only on bounded domains (moduli of 4-8 bits, or bounded quotient); the ESP8266-specific 32-bit-load paths of br_i15_montymul are proved equal to the word-serial loop for 1..9 (thorough: ..35) words and all four alignment combinations, and their memory safety is decided on exact-size operands (one genuine 2-byte over-read found, see outside_claim/notes). Partial: sizes and domains beyond the listed bounds are outside the claim.",
+ "level_note": "Trusted: CBMC's C front end and bit-precise semantics incl. its pointer model (object bases 4-byte aligned; one query family re-bases them at 2 mod 4 by a macro on the pointer-to-integer cast); loop-model memcpy/memset/memmove; bounds as listed per query in the evidence. One solver query covers a short list of concrete announced bit lengths (sizes are concrete in every unrolled iteration).",
+ "technique": "bounded symbolic model checking (CBMC/SAT/SMT) of real C units vs reference on explicit integers; division-free reference formulations (operand = Q*m + R0; text-book REDC with characterised inverse); uninterpreted multiplier for the alignment equivalence; inductive splitting law for br_divrem",
+ "assumptions": [
+  "m0i and the full-width Montgomery inverse are characterised by m0i*m[1] == -1 (mod 2^W) / M*minv == -1 (mod R) instead of being computed by br_iXX_ninvNN (br_i15_ninv15 is decided separately; br_i31_ninv31/br_i32_ninv32 only for x < 2^12)",
+  "REDC(P) = (P + ((P mod R)*minv mod R)*M)/R, minus M if >= M, is taken as the definition of 'x*y/R mod m' (text-book theorem); it is cross-checked against a '%' reference through the code at 5-bit moduli (i15-montymul-bl5-mod, i15-fmont-bl5-mod)",
+  "align-value-*: MUL15 replaced by one uninterpreted function on both sides (sound for the equivalence claim); operands have one slack word after the last value word so that the verdict is about values only",
+  "align-memsafe-base2-*: object bases modelled at addresses = 2 mod 4 by redefining the (intptr_t) cast inside the included i15_montmul.c; --pointer-overflow-check off there (the code forms y-1/m-1 without dereferencing it)",
+  "header encodings: both the normalised form ((k/W)<<s)+(k%W) and the form ((k/W-1)<<s)+W produced by br_iXX_bit_length/decode at multiples of W are exercised (-altenc queries)",
+  "modpow_opt: 'tmp too short' is decided against the implementation's rule twlen < 2*roundup2(words+1); the documentation only states 2*(words+1) (the stricter rule only ever rejects)",
+ ],
+ "outside_claim": [
+  "br_divrem/br_rem/br_div for all 2^96 inputs: no back end (minisat, cadical, kissat, z3, cvc5) finishes in 900 s, neither against q*d+r == hi:lo nor against text-book long division, not even for d < 2^16 or with a concrete 32-bit d; decided: d < 16 (all hi < d, all lo; and the documented hi == d case), and by the inductive splitting law every divisor with quotient < 4 (quick) / < 32 (thorough)",
+  "MUL31 / MUL31_lo with BR_CT_MUL31=1 (biased multiplication) == plain product: no back end finishes in 240 s, even with one operand bounded to 8 bits; dropped (BR_CT_MUL15 variant of MUL15 is decided)",
+  "br_i31_ninv31 / br_i32_ninv32 for every odd x: not decided by any back end (8 dependent 32-bit multiplications); only x < 2^12 in the thorough tier",
+  "multiplication correctness at >= 2 words with the real multiplier: i15 montymul/from_monty/mulacc/to_monty at 2 words (20 and 30 bits) get no verdict in 600 s on kissat and cvc5; i31 and i32 montymul get no verdict even at one word (from_monty and mulacc at one word are decided)",
+  "muladd_small / to_monty / reduce / decode_reduce for every operand: only moduli of 5-8 bits, or (muladd_small, 2 words, i15/i31/i32) every modulus with quotient < 4 (thorough: < 8), or low word of the modulus nearly fixed",
+  "modpow / modpow_opt / moddiv: moduli of 4-6 bits, exponent of one byte; modpow_opt at 2 words: acceptance and memory safety only (empty exponent)",
+  "br_i15_montymul alignment paths beyond 35 words; alignment equivalence is modulo an uninterpreted multiplier (word-serial loop itself is decided against REDC at one word only)",
+  "i62, production operand sizes",
+  "br_i15_montymul forms the pointers y-1 / m-1 (never dereferenced) when the operand is 2-byte aligned: undefined by ISO C 6.5.6p8 only if the operand starts its object; not reported as a violation",
+ ],
+ "notes": [
+  "FINDING (align-memsafe-len4-*, align-memsafe-len8-y0-m0): br_i15_montymul reads 2 bytes past y[len] (resp. m[len]) when that operand is 4-byte aligned and the modulus has a multiple of 4 value words (len = 4, 8, 12, ...: announced bit lengths 46..60, 106..120, ...): the last `ty = *(uint32_t*)(py = py + 2)` / `tm = ...` of the unrolled loop (src/int/i15_montmul.c:177,179 aligned/aligned; :214 y aligned; :252 m aligned) loads y[len],y[len+1]; the upper half is never used. Out-of-object read when the operand object has exactly len+1 words; reproduced natively by ASan (stack-buffer-overflow).",
+  "br_iXX_bit_length / br_iXX_decode return ((k-1)/W << s) + ((k-1)%W) + 1, i.e. the low field is W (not 0 with a carry) when k is a non-zero multiple of W; inner.h documents ((k/W) << s) + (k%W). All routines accept both forms (decided by the -altenc queries).",
+ ],
+ "mutants_tried": [
+  "br_i15_add: carry out of word 2 dropped (`cc = (naw >> 15) & (u != 2)`): caught by all 13 i15-addsub-* queries (VIOLATION, native replay reproduces)",
+  "br_i15_decode: `acc >>= 15` -> `acc >>= 16` after a full word: caught by i15-decode-0-7, -8-11, -12-13, -14-15",
+  "br_i15_montymul, path (y aligned, m unaligned): `m2 = tm >> 16` -> `m2 = tm`: caught by align-value-z3-len4-y0-m1 and align-value-z3-len5-y0-m1 (FAIL with counterexample); the cvc5 twins align-value-len{4,5,8,9}-* then time out (INCONCLUSIVE, not PASS) - cvc5 proves the equivalence in seconds but does not find the counterexample, which is why the z3 twins exist",
+  "br_i15_modpow_opt: `mwlen += (mwlen & 1)` removed: caught by i15-modpow_opt-bl16-tw6-e0 and -tw7-e0 (the first version of these queries, with a one-byte exponent, timed out instead: strengthened by the empty-exponent variant)",
+  "br_i15_muladd_small: `under = ~over & (tb | LT(cc, hi))` -> `under = ~over & tb`: ESCAPED the first set (5-bit moduli and low-word-bounded 16..18-bit moduli); after adding the bounded-quotient family caught by i15-muladd-bl30-q2, -bl30-q2-altenc, -bl45-q2",
+  "br_i31_decode_mod: `r = MUX(EQ(xw, 0), r, 1)` removed (value longer than the modulus accepted): caught by all 9 i31-decmod-* queries",
+  "br_i15_mulacc: carry of the low header field dropped: ESCAPED the first set (15x15, 8x15, 15x3 never carry); after adding 8x8, 14x14 and the non-normalised 15x15 caught by those three",
+  "inner.h MUX with swapped result (`x ^ (-ctl & (x ^ y))`): caught by prims-default (and transitively by most others)",
+ ],
 }
+
+SWEEP = os.environ.get("C09_SWEEP", "")       # e.g. "cadical,kissat,z3,cvc5": clone every selected query per back end
+BACKENDS = {None: "", "cadical": "cadical", "kissat": "kissat", "z3": "z3", "cvc5": "cvc5"}
+
+PFX = {15: "i15", 31: "i31", 32: "i32"}
+
+
+def U(w, *names):
+    """repo-relative unit files of one word variant"""
+    out = []
+    for n in names:
+        if n == "ninv":
+            n = {15: "ninv15", 31: "ninv31", 32: "ninv32"}[w]
+        if n == "div32":
+            out.append("src/int/i32_div32.c")
+        else:
+            out.append("src/int/%s_%s.c" % (PFX[w], n))
+    return out
+
+
+def chunks(vals, w):
+    """group concrete bit lengths so that each query stays cheap: one solver call
+    decides all instances of an assertion together, and its cost grows faster than
+    linearly with the number of instances"""
+    out, cur = [], []
+    for v in vals:
+        nwords = (v + w - 1) // w
+        cap = 32 if v <= 2 * 15 else (8 if nwords * w <= 64 else 3)
+        if cur and (len(cur) >= cap or v != cur[-1] + 1 and len(cur) >= 3 or (cur[-1] <= 30) != (v <= 30)):
+            out.append(cur)
+            cur = []
+        cur.append(v)
+    if cur:
+        out.append(cur)
+    return out
+
+
+def quick_set(w, top):
+    """every residue mod W at one and at two words, and the word-boundary neighbourhoods above"""
+    s = set(range(0, 2 * w + 3))
+    for k in range(2, top // w + 1):
+        s.update((k * w - 1, k * w, k * w + 1))
+    s.update((32, 33, 63, 64, 65, 93, 96, top - 1, top))
+    return sorted(v for v in s if v <= top)
+
+
+def mf_queries():
+    """multiplication-free routines, harness C09_bigint.c"""
+    qs = []
+
+    def add(w, test, vals, units, extra=(), tag="", config="host", tier="quick", what="", backend=None):
+        if len(vals) > 1 and vals == list(range(vals[0], vals[-1] + 1)):
+            rng = "%d-%d" % (vals[0], vals[-1])
+        else:
+            rng = "_".join(str(v) for v in vals)
+        name = "%s-%s-%s%s" % (PFX[w], test.lower(), rng, tag)
+        defs = ["-DW=%d" % w, "-DT_%s=1" % test, "-DLIST=" + ",".join(str(v) for v in vals)] + list(extra)
+        # br_i32_encode's loops are bounded by the (here symbolic) announced length: give them their own bound
+        uws = ["br_i32_encode.0:20", "br_i32_encode.1:8"] if (w == 32 and test == "DECODE") else []
+        qs.append(Q(name, "C09_bigint.c", units=units, defs=defs, unwind=140, unwindset=uws, tier=tier, config=config, backend=backend,
+                    timeout=240 if tier == "quick" else 900, desc=what + "; sizes {%s}" % rng))
+
+    for w in (15, 31, 32):
+        p = PFX[w]
+        top = 120 if w != 32 else 96
+        # decode + encode round trip, byte lengths 0..15
+        for vals in ([0, 1, 2, 3, 4, 5, 6, 7], [8, 9, 10, 11], [12, 13], [14, 15]):
+            add(w, "DECODE", vals, U(w, "decode", "encode", "bitlen"),
+                what="br_%s_decode value/header for every byte string of the given byte lengths, then br_%s_encode round trip to the same, a shorter and a longer length" % (p, p))
+        tests = [("ENCODE", ["encode"], top, "br_%s_encode == value mod 2^(8 len) big-endian for every value of the announced bit length, 4 output lengths each" % p),
+                 ("DECMOD", ["decmod"], min(top, 112), "br_%s_decode_mod flag == (value < m), x == value or 0; every modulus value of the announced bit length, source of equal/shorter/longer byte length" % p),
+                 ("ADDSUB", ["add", "sub"], top, "br_%s_add/sub carry and result vs __int128, ctl=0 is a no-op, a==b aliasing; every operand of the announced bit length" % p),
+                 ("MISC", ["iszero"], top, "br_%s_iszero, br_%s_zero" % (p, p))]
+        if w != 32:
+            tests.append(("RSHIFT", ["rshift"], top, "br_%s_rshift == value >> count for every count 0..%d" % (p, 14 if w == 15 else 30)))
+        for (t, un, tp, what) in tests:
+            qset = quick_set(w, tp)
+            for vals in chunks(qset, w):
+                add(w, t, vals, U(w, *un), what=what)
+            rest = [v for v in range(0, tp + 1) if v not in qset]
+            for vals in chunks(rest, w):
+                add(w, t, vals, U(w, *un), tier="thorough", what=what)
+        nwmax = 8 if w == 15 else 4
+        add(w, "BITLEN", list(range(0, nwmax + 1)), U(w, "bitlen"),
+            what="br_%s_bit_length encodes the true bit length, every value of the given word counts" % p)
+        if w == 15:
+            add(w, "NINV", [0], U(w, "ninv"), what="x * ninv(x) == -1 mod 2^%d for every odd word x, 0 for even" % w)
+            add(w, "NINV", [0], U(w, "ninv"), extra=["-DBR_CT_MUL15=1", "-DBR_CT_MUL31=1"], tag="-ctmul",
+                what="same with BR_CT_MUL15/BR_CT_MUL31")
+        else:
+            # the 31/32-bit Newton iteration (8 dependent 32-bit multiplications) is not decided for all x by any back end
+            add(w, "NINV", [0], U(w, "ninv"), extra=["-DXBITS=12"], tag="-x12", tier="thorough", backend="kissat",
+                what="bounded: x * ninv(x) == -1 mod 2^%d for every odd x < 2^12" % w)
+        if w != 32:
+            # non-normalised header form at multiples of W (what bit_length/decode produce)
+            for t, un in (("ENCODE", ["encode"]), ("DECMOD", ["decmod"]), ("ADDSUB", ["add", "sub"]),
+                          ("MISC", ["iszero"]), ("RSHIFT", ["rshift"])):
+                mult = [k for k in range(w, (105 if t == "DECMOD" else 120) + 1, w)]
+                for vals in ([mult[0:2], mult[2:5], mult[5:]] if w == 15 else [mult]):
+                    if vals:
+                        add(w, t, vals, U(w, *un), extra=["-DALTENC=1"], tag="-altenc",
+                            what="same claim with the non-normalised header ((k/W-1)<<s)+W that br_%s_bit_length/decode produce at multiples of %d" % (p, w))
+    # esp-like configuration where the code path differs (byte-wise br_enc32be/br_dec32be)
+    for w in (31, 32):
+        p = PFX[w]
+        add(w, "DECODE", [0, 1, 2, 3, 4, 5, 6, 7, 8, 9], U(w, "decode", "encode", "bitlen"), config="esp", tag="-esp",
+            what="br_%s_decode/encode with the portable (no unaligned access) br_dec32be/br_enc32be" % p)
+        add(w, "ENCODE", [0, 1, 8, 31, 32, 33, 40, 62, 63, 64], U(w, "encode"), config="esp", tag="-esp",
+            what="br_%s_encode with the portable br_enc32be" % p)
+    return qs
+
+
+MUL_UNITS = {
+    "MULADD": ["muladd", "add", "sub"],
+    "MULACC": ["mulacc"],
+    "MONTYMUL": ["montmul", "sub", "ninv"],
+    "TMONT": ["tmont", "muladd", "add", "sub"],
+    "FMONT": ["fmont", "sub", "ninv"],
+    "REDUCE": ["reduce", "muladd", "add", "sub"],
+    "DECRED": ["decred", "decode", "bitlen", "rshift", "muladd", "add", "sub"],
+    "MODPOW": ["modpow", "tmont", "muladd", "add", "sub", "montmul", "ninv"],
+    "MODPOW_OPT": ["modpow2", "tmont", "fmont", "muladd", "add", "sub", "montmul", "ninv"],
+    "MODDIV": ["moddiv", "ninv"],
+    "REDC_SELF": [],
+}
+
+
+def mul_units(w, test):
+    names = [n for n in MUL_UNITS[test] if not (w == 32 and n == "rshift")]
+    u = U(w, *names)
+    if w != 15 and "muladd" in names:
+        u.append("src/int/i32_div32.c")
+    if test in ("MODPOW", "MODPOW_OPT"):
+        u.append("src/codec/ccopy.c")
+    return u
+
+
+def mulq(w, test, bl, bl2=None, extra=(), tag="", backend=None, tier="quick", config="host", what="", timeout=None):
+    name = "%s-%s-bl%d%s%s" % (PFX[w], test.lower(), bl, ("x%d" % bl2) if bl2 is not None else "", tag)
+    defs = ["-DW=%d" % w, "-DT_%s=1" % test, "-DBL=%d" % bl] + (["-DBL2=%d" % bl2] if bl2 is not None else []) + list(extra)
+    return Q(name, "C09_bigmul.c", units=mul_units(w, test), defs=defs, unwind=140, backend=backend, tier=tier, config=config,
+             timeout=timeout or (240 if tier == "quick" else 900), desc=what)
+
+
+def mul_queries():
+    qs = []
+    if os.environ.get("C09_PROBE"):
+        # back-end sweep candidates: C09_PROBE="15:MULADD:15,15:MONTYMUL:30,..."
+        for item in os.environ["C09_PROBE"].split(","):
+            f = item.split(":")
+            w, t, bl = int(f[0]), f[1], int(f[2])
+            bl2 = int(f[3]) if len(f) > 3 and f[3] else None
+            extra = f[4].split("+") if len(f) > 4 else []
+            qs.append(mulq(w, t, bl, bl2, extra=extra, tag="".join(e.replace("-D", "-") for e in extra)))
+        return qs
+    MOD = ["-DUSE_MOD=1"]
+    # back ends are the winners of a 60-120 s sweep over minisat/cadical/kissat/z3/cvc5 (per query family)
+    # Montgomery multiplication, one word, real multiplier, == text-book REDC
+    for bl in (1, 8, 14, 15):
+        qs.append(mulq(15, "MONTYMUL", bl, extra=["-DALIAS_XY=1"], backend="cvc5",
+                       what="br_i15_montymul == REDC(x*y) (x*y/R mod m, R=2^15), also montymul(d,x,x); every odd m of %d bits (announced), every x,y < m" % bl))
+    qs.append(mulq(15, "MONTYMUL", 15, extra=["-DALIAS_XY=1", "-DBR_CT_MUL15=1"], tag="-ctmul", backend="cvc5",
+                   what="same with BR_CT_MUL15"))
+    qs.append(mulq(15, "MONTYMUL", 5, extra=MOD, tag="-mod", backend="kissat",
+                   what="br_i15_montymul: d < m and d*2^15 == x*y (mod m) with a plain '%' reference (cross-checks the REDC formulation); m of 5 bits"))
+    for w, bl in ((15, 8), (15, 15), (31, 16), (31, 31), (32, 20), (32, 32)):
+        qs.append(mulq(w, "FMONT", bl, backend="cvc5",
+                       what="br_%s_from_monty == REDC(x) (x/R mod m), one word; every odd m of %d bits, every x < m" % (PFX[w], bl)))
+    qs.append(mulq(15, "FMONT", 5, extra=MOD, tag="-mod", backend="kissat", what="br_i15_from_monty: r < m and r*2^15 == x (mod m), '%' reference; m of 5 bits"))
+    qs.append(mulq(31, "FMONT", 31, config="esp", tag="-esp", backend="cvc5", what="br_i31_from_monty, esp-like 32-bit configuration"))
+    # mulacc, one word by one word
+    for w, bl, bl2, extra in ((15, 15, 15, []), (15, 8, 15, []), (15, 15, 3, []), (15, 8, 8, []), (15, 14, 14, []), (15, 15, 15, ["-DALTENC=1"]),
+                              (31, 31, 31, []), (31, 17, 31, []), (31, 20, 20, []), (31, 31, 31, ["-DALTENC=1"]), (32, 32, 32, []), (32, 32, 9, [])):
+        qs.append(mulq(w, "MULACC", bl, bl2, extra=extra, tag="-altenc" if extra else "", backend="cvc5",
+                       what="br_%s_mulacc: d + a*b exact and header = sum of announced lengths (incl. the carry of the low header field); a of %d bits, b of %d bits, every value%s" % (PFX[w], bl, bl2, ", non-normalised input headers" if extra else "")))
+    for w in (31, 32):
+        qs.append(mulq(w, "MULACC", w, w, config="esp", tag="-esp", backend="cvc5",
+                       what="br_%s_mulacc with the BR_64=0 carry type (esp-like configuration)" % PFX[w]))
+    # routines built on a division estimate: only moduli of a few bits finish
+    qs.append(mulq(15, "MULADD", 5, extra=MOD, tag="-mod", backend="kissat", what="br_i15_muladd_small == (x*2^15 + z) mod m, every m of exactly 5 bits, x < m, z < 2^15"))
+    qs.append(mulq(31, "MULADD", 5, extra=MOD, tag="-mod", backend="kissat", what="br_i31_muladd_small == (x*2^31 + z) mod m, every m of exactly 5 bits"))
+    # multi-word path (quotient estimate from the top words, +-1 correction): bounded to moduli whose low word is nearly fixed
+    for w, bl, ml, tier in ((15, 16, 2, "quick"), (15, 17, 2, "quick"), (15, 18, 1, "quick"), (15, 20, 1, "thorough"),
+                            (31, 32, 1, "quick"), (31, 33, 1, "quick"), (32, 33, 1, "thorough"), (32, 34, 1, "thorough")):
+        qs.append(mulq(w, "MULADD", bl, extra=["-DMLOWBITS=%d" % ml], tag="-ml%d" % ml, backend="kissat", tier=tier,
+                       what="br_%s_muladd_small, two-word modulus of exactly %d bits (estimate-and-correct path), bounded: low word of m < 2^%d; every x < m, every z" % (PFX[w], bl, ml)))
+    # every modulus of the given length, bounded quotient (x*2^W + z = Q*m + R0 with Q < 2^QBITS, every R0 < m):
+    # this is where the estimate is off by one in either direction
+    for w, bl, qb, extra, tier in ((15, 16, 2, [], "quick"), (15, 23, 2, [], "quick"), (15, 30, 2, [], "quick"), (15, 30, 2, ["-DALTENC=1"], "quick"),
+                                   (15, 31, 2, [], "quick"), (15, 45, 2, [], "quick"), (15, 45, 3, [], "thorough"),
+                                   (31, 32, 2, [], "quick"), (31, 45, 2, [], "quick"), (31, 62, 2, [], "quick"), (31, 62, 2, ["-DALTENC=1"], "quick"), (31, 45, 3, [], "thorough"),
+                                   (32, 33, 2, [], "quick"), (32, 40, 2, [], "quick"), (32, 64, 2, [], "quick"), (32, 40, 3, [], "thorough")):
+        qs.append(mulq(w, "MULADD", bl, extra=["-DQBITS=%d" % qb] + extra, tag="-q%d%s" % (qb, "-altenc" if extra else ""), backend="kissat", tier=tier,
+                       what="br_%s_muladd_small, every modulus of exactly %d bits (multi-word estimate-and-correct path), every remainder; bounded: quotient (x*2^%d+z)/m < 2^%d" % (PFX[w], bl, w, qb)))
+    qs.append(mulq(15, "MULADD", 8, backend="kissat", tier="thorough", what="br_i15_muladd_small, every m of exactly 8 bits (operand = Q*m + R0 formulation)"))
+    qs.append(mulq(15, "TMONT", 5, extra=MOD, tag="-mod", backend="kissat", what="br_i15_to_monty == x*2^15 mod m, m of exactly 5 bits"))
+    qs.append(mulq(15, "TMONT", 8, backend="kissat", what="br_i15_to_monty == x*2^15 mod m, m of exactly 8 bits"))
+    qs.append(mulq(31, "TMONT", 5, extra=MOD, tag="-mod", backend="kissat", what="br_i31_to_monty == x*2^31 mod m, m of exactly 5 bits"))
+    for bl2 in (3, 10, 15, 20, 30):
+        qs.append(mulq(15, "REDUCE", 5, bl2, backend="kissat", what="br_i15_reduce == a mod m, m of exactly 5 bits, a of announced length %d (shorter / 1 word / 2 words)" % bl2))
+    for sl in (0, 1, 2, 3):
+        qs.append(mulq(15, "DECRED", 5, extra=["-DSRCLEN=%d" % sl] + (MOD if sl < 1 else []), tag="-src%d" % sl, backend="kissat",
+                       what="br_i15_decode_reduce == big-endian value of %d bytes mod m, m of exactly 5 bits" % sl))
+    for w in (31, 32):
+        for bl2 in (3, 10, 34):
+            qs.append(mulq(w, "REDUCE", 5, bl2, backend="kissat", what="br_%s_reduce == a mod m, m of exactly 5 bits, a of announced length %d" % (PFX[w], bl2)))
+        for sl in (0, 1, 2):
+            qs.append(mulq(w, "DECRED", 5, extra=["-DSRCLEN=%d" % sl] + (MOD if sl < 1 else []), tag="-src%d" % sl, backend="kissat",
+                           what="br_%s_decode_reduce == big-endian value of %d bytes mod m, m of exactly 5 bits" % (PFX[w], sl)))
+    # control structure of the exponentiations (bit scanning, windows, conditional copies): tiny modulus, symbolic exponent byte
+    qs.append(mulq(15, "MODPOW", 4, backend="kissat", what="br_i15_modpow == x^e mod m for every exponent byte e, every odd m of exactly 4 bits, x < m"))
+    mw = 2
+    for tw in (3, 4, 9, 10, 17, 18, 33, 34, 65, 66, 70):
+        win = 0 if tw < 2 * mw else max(k for k in (1, 2, 3, 4, 5) if k == 1 or ((1 << k) + 1) * mw <= tw)
+        qs.append(mulq(15, "MODPOW_OPT", 4, extra=["-DTWLEN=%d" % tw], tag="-tw%d" % tw, backend="kissat",
+                       tier="quick" if tw <= 34 else "thorough",
+                       what="br_i15_modpow_opt with tmp[] of exactly %d words (%s): return value, tmp[%d] untouched, result == x^e mod m for every exponent byte; odd m of exactly 4 bits"
+                            % (tw, "too short: must return 0" if win == 0 else "window %d" % win, tw)))
+    # two-word modulus: the even-word rounding of the temporaries decides acceptance.  Empty exponent (x^0), so that
+    # the verdict (return value, no access outside tmp[0..twlen)) does not have to wait for two-word arithmetic.
+    for w, bl in ((15, 16), (15, 30), (31, 32)):
+        for tw in (5, 6, 7, 8, 19, 20):
+            qs.append(mulq(w, "MODPOW_OPT", bl, extra=["-DTWLEN=%d" % tw, "-DELEN=0"], tag="-tw%d-e0" % tw, backend="kissat",
+                           what="br_%s_modpow_opt, 2-word modulus (3 words with header, rounded up to 4), empty exponent: returns 0 iff twlen %d < 8; tmp[] of exactly %d words, no access outside it (result value not checked here)" % (PFX[w], tw, tw)))
+    qs.append(mulq(15, "MODPOW", 5, backend="kissat", tier="thorough", what="br_i15_modpow == x^e mod m, every exponent byte, odd m of exactly 5 bits"))
+    qs.append(mulq(31, "MODPOW", 4, backend="kissat", tier="thorough", what="br_i31_modpow == x^e mod m, every exponent byte, odd m of exactly 4 bits"))
+    qs.append(mulq(32, "MODPOW", 4, backend="kissat", tier="thorough", what="br_i32_modpow == x^e mod m, every exponent byte, odd m of exactly 4 bits"))
+    qs.append(mulq(31, "MODPOW_OPT", 4, extra=["-DTWLEN=10"], tag="-tw10", backend="kissat", tier="thorough",
+                   what="br_i31_modpow_opt, window 2, == x^e mod m, every exponent byte, odd m of exactly 4 bits"))
+    qs.append(mulq(15, "MODDIV", 6, backend="kissat", tier="thorough", what="br_i15_moddiv, every odd m < 2^6"))
+    qs.append(mulq(15, "MODDIV", 5, backend="kissat", what="br_i15_moddiv: returns 1 iff gcd(y,m)=1 and then r*y == x mod m; every odd m < 2^5, x,y < m"))
+    return qs
+
+
+def divrem_queries():
+    qs = []
+    u = ["src/int/i32_div32.c"]
+
+    def add(name, defs, backend, tier, to, what):
+        qs.append(Q("divrem-" + name, "C09_divrem.c", units=u, defs=defs, unwind=33, backend=backend, tier=tier,
+                    timeout=to, desc=what))
+    # No back end (minisat, cadical, kissat, z3, cvc5) decides br_divrem for all 2^96 inputs or for d < 2^16
+    # within 900 s, neither against q*d+r == n nor against a text-book long division; what is decided:
+    add("dmax16", ["-DDMAX=16"], "kissat", "quick", 240,
+        "br_divrem: r < d and q*d + r == hi:lo for every hi < d, every lo, divisor bounded d < 16")
+    add("dmax16-hi_eq_d", ["-DDMAX=16", "-DHI_EQ_D=1"], "kissat", "quick", 240,
+        "br_divrem documented hi == d case: remainder exact, quotient truncated to 32 bits; d < 16")
+    add("wrappers", ["-DDMAX=4", "-DT_WRAP=1"], "kissat", "quick", 240,
+        "br_rem / br_div return the remainder / quotient of br_divrem (d < 4)")
+    add("law-base", ["-DLAWK=-1"], None, "quick", 240, "br_divrem: N < d gives (0, N), every 32-bit d")
+    for k, be, tier in ((0, None, "quick"), (1, None, "quick"), (2, "kissat", "thorough"), (3, "kissat", "thorough"), (4, "kissat", "thorough")):
+        add("law-k%d" % k, ["-DLAWK=%d" % k], be, tier, 240 if tier == "quick" else 900,
+            "br_divrem splitting law at quotient bit %d (every 32-bit d); with law-base and law-k0..k%d: exact for every quotient < 2^%d" % (k, k, k + 1))
+    return qs
+
+
+def align_queries():
+    """port-specific 32-bit-load paths of br_i15_montymul, harness C09_align.c (#includes the real file)"""
+    qs = []
+    sub = ["src/int/i15_sub.c"]
+    nat = ["src/int/i15_sub.c"]
+    offs = ((0, 0), (0, 1), (1, 0), (1, 1))
+    # (a) memory safety with exact-size operand objects
+    for ln in (1, 2, 3, 4, 5, 6, 7, 8, 9, 12):
+        for (yo, mo) in offs:
+            if ln in (1, 2, 6, 7, 8, 9, 12) and (yo, mo) in ((0, 1), (1, 0)):
+                continue
+            if ln == 12 and (yo, mo) == (0, 0):
+                continue   # same over-read as len 4 and 8 (decided there); each failing query costs minutes of trace extraction
+            qs.append(Q("align-memsafe-len%d-y%d-m%d" % (ln, yo, mo), "C09_align.c", units=sub, native_units=nat,
+                        defs=["-DT_MEMSAFE=1", "-DLEN=%d" % ln, "-DYOFF=%d" % yo, "-DMOFF=%d" % mo, "-DXOFF=%d" % mo, "-DDOFF=%d" % yo],
+                        unwind=40, timeout=240,
+                        desc="br_i15_montymul, %d value words, y at uint16_t offset %d (%s), m at offset %d (%s), every operand an object of exactly offset+%d words: no access outside any operand object, no UB, for every content"
+                             % (ln, yo, "4-byte aligned" if yo == 0 else "2-byte aligned", mo, "4-byte aligned" if mo == 0 else "2-byte aligned", ln + 1)))
+    for ln in (4, 5, 8):
+        qs.append(Q("align-memsafe-base2-len%d-y0-m0" % ln, "C09_align.c", units=sub, native_units=nat,
+                    defs=["-DT_MEMSAFE=1", "-DBASE2=1", "-DLEN=%d" % ln], unwind=40, timeout=240, checks=False,
+                    desc="same with object bases modelled at addresses = 2 mod 4 (2-byte-aligned operands with nothing in front of them): no out-of-object access (forming the pointer y-1 / m-1, never dereferenced, is not checked here)"))
+    # (b) value independence of alignment: == plain word-serial loop, uninterpreted multiplier
+    for ln, tier in ((1, "quick"), (3, "quick"), (4, "quick"), (5, "quick"), (8, "quick"), (9, "quick"),
+                     (6, "thorough"), (7, "thorough"), (12, "thorough"), (13, "thorough"), (18, "thorough"), (35, "thorough")):
+        for (yo, mo) in offs:
+            if ln in (1, 3) and (yo, mo) in ((0, 1), (1, 0)):
+                continue
+            qs.append(Q("align-value-len%d-y%d-m%d" % (ln, yo, mo), "C09_align.c", units=sub, native_units=nat,
+                        defs=["-DT_VALUE=1", "-DLEN=%d" % ln, "-DYOFF=%d" % yo, "-DMOFF=%d" % mo], unwind=2 * ln + 8, backend="cvc5",
+                        tier=tier, timeout=240 if tier == "quick" else 900,
+                        desc="br_i15_montymul (alignment-specific 32-bit-load path y:%s m:%s) == word-serial Montgomery loop with 16-bit reads, %d words, every content; MUL15 uninterpreted on both sides"
+                             % ("aligned" if yo == 0 else "unaligned", "aligned" if mo == 0 else "unaligned", ln)))
+    # the same claim on z3 at 4 and 5 words: cvc5 proves the equivalence fast but does not produce a counterexample
+    # within the budget when a path is wrong (mutant run: timeouts); z3 does (22 s)
+    for ln in (4, 5):
+        for (yo, mo) in offs:
+            qs.append(Q("align-value-z3-len%d-y%d-m%d" % (ln, yo, mo), "C09_align.c", units=sub, native_units=nat,
+                        defs=["-DT_VALUE=1", "-DLEN=%d" % ln, "-DYOFF=%d" % yo, "-DMOFF=%d" % mo], unwind=2 * ln + 8, backend="z3",
+                        timeout=240, desc="same claim as align-value-len%d-y%d-m%d, decided by z3 (counterexample-capable back end)" % (ln, yo, mo)))
+    return qs
+
 
 def queries():
     qs = []
     for nm, defs in (("default", []), ("ctmul_noarsh", ["-DBR_CT_MUL31=1", "-DBR_CT_MUL15=1", "-DBR_NO_ARITH_SHIFT=1"])):
         qs.append(Q("prims-" + nm, "C09_prims.c", defs=defs, unwind=33,
                     desc="inner.h NOT MUX EQ NEQ GT GE LT LE CMP EQ0 GT0 GE0 LT0 LE0 MIN MAX BIT_LENGTH ARSH, all 2^64 operand pairs"))
+    # MUL31 / MUL31_lo with BR_CT_MUL31 (biased 32x32->64 multiplication) are not decided: no back end finishes
+    # within 240 s, not even with one operand bounded to 6 bits (see META outside_claim)
+    for t, d, be in (("mul31", ["-DT_MUL31=1"], None), ("mul31lo", ["-DT_MUL31LO=1"], None), ("mul15", [], None)):
+        qs.append(Q("prims-%s" % t, "C09_mul.c", defs=d, unwind=33, backend=be,
+                    desc="%s macro == plain multiplication on its documented domain" % t.upper()))
+    qs.append(Q("prims-mul15-ctmul", "C09_mul.c", defs=["-DBR_CT_MUL15=1", "-DBR_CT_MUL31=1"], unwind=33, backend="kissat",
+                desc="MUL15 macro (BR_CT_MUL15 variant) == plain multiplication whenever the operand bit lengths sum to <= 31"))
+    qs += divrem_queries()
+    qs += mf_queries()
+    qs += align_queries()
+    qs += mul_queries()
+    if os.environ.get('C09_PROBE'):
+        qs = mul_queries()
+    if SWEEP:
+        out = []
+        for q in qs:
+            for be in SWEEP.split(","):
+                q2 = Q(q.name + "@" + be, q.harness, units=q.units, defs=q.defs, unwind=q.unwind, unwindset=q.unwindset,
+                       tier=q.tier, timeout=int(os.environ.get("C09_SWEEP_TO", "60")), backend=(None if be == "minisat" else be),
+                       config=q.config, desc=q.desc, witness=False)
+                out.append(q2)
+        return out
     return qs
